@@ -104,7 +104,7 @@ func genSpanBatch(r *vgen.Rand, tiny bool) spanBatch {
 	var b spanBatch
 	b.resources, b.twin = genResources(r, r.Chance(1, 6))
 	b.scopes = genScopes(r)
-	allowLinkTS := r.Chance(1, 6)
+	allowLinkTS := r.Chance(1, 3)
 	n := r.Range(1, 10)
 	if tiny {
 		n = r.Range(1, 3)
@@ -385,7 +385,7 @@ func traceCorpus() []spanBatch {
 			Status: tracesdk.Status{Code: codes.Ok}}
 	}
 	var out []spanBatch
-	// F-C13-1: a link carrying tracestate a=1
+	// F-C13-1 (fixed in /repo by fd654da; kept as regression input): a link carrying tracestate a=1
 	s := mk(1, "linked", res1, scA)
 	s.Links = []tracesdk.Link{{SpanContext: trace.NewSpanContext(trace.SpanContextConfig{TraceID: tid, SpanID: trace.SpanID{9, 9, 9, 9, 9, 9, 9, 9}, TraceState: mustTS("a=1")})}}
 	out = append(out, spanBatch{stubs: tracetest.SpanStubs{s}, resources: []*resource.Resource{res1}, scopes: []instrumentation.Scope{scA}, ri: []int{0}, si: []int{0}, linkTS: true})
